@@ -4,7 +4,7 @@ Models of the trace structures and worklists the inter-procedural traversals ter
 analysis/dataflow/trace.go
   NodeTree[T] (a path root … node)        Trace = List Label, HEAD = the current node (`n.Label`), tail = parents
   n.Add(x)                                x :: t
-  n.Parent                                t.tail
+  n.Parent                                t.tail   (any ancestor: a suffix of the list)
   n.GetLassoHandle() != nil               lasso t      (label of the current node occurs among its ancestors)
   n.Key()                                 the list itself
 
@@ -36,9 +36,15 @@ def lassoHandle {β} [DecidableEq β] : Trace β → Option (Trace β)
   | [] => none
   | x :: rest => if rest.contains x then some (rest.dropWhile (· ≠ x)) else none
 
-/-- how the visitors derive the next trace from the current one: unchanged, `.Parent`, or `.Add(x)`. -/
+/-- `t'` is `t` or one of its ancestors (`t.Parent`, `UnwindCallStackToFunc(t, f)`, `nil`). -/
+def isAncestor {β} [DecidableEq β] (t' : Trace β) : Trace β → Bool
+  | [] => t' == []
+  | x :: r => t' == x :: r || isAncestor t' r
+
+/-- how the visitors derive the next trace from the current one: the trace itself or an ancestor of it
+(unchanged, `.Parent`, `UnwindCallStackToFunc`, `nil`), or `.Add(x)` (table T12 lists every expression used). -/
 def traceStep {β} [DecidableEq β] (t t' : Trace β) : Bool :=
-  t' == t || t' == t.tail || (match t' with | [] => false | _ :: r => r == t)
+  isAncestor t' t || (match t' with | [] => false | _ :: r => r == t)
 
 /-! ### generic worklist with a `seen` set (both visitors, `GetAllCallingContexts`) -/
 
